@@ -333,6 +333,18 @@ def pipeTakeN (R : Recoverable α) (P : PipeDef α β T X S Res) :
     | (none, p') => ([], p')
     | (some b, p') => let r := pipeTakeN R P k p'; (b :: r.1, r.2)
 
+/-- A pipeline iterator is itself a recoverable iterator (`_RunnerIterator` has `state` and
+`from_state`): in a chain of named transforms the downstream runner's data source is the upstream
+runner's iterator, its input state is the upstream `_IteratorState`, and restoring the downstream
+iterator restores the upstream one as its data source (`MultiplexIterator.from_state`). -/
+def pipeRec (R : Recoverable α) (P : PipeDef α β T X S Res) : Recoverable β where
+  It := PipeIt R β T S
+  St := R.St × S
+  next := PipeIt.next R P
+  state := PipeIt.state R
+  restore := PipeIt.restore R P
+  size := fun p => R.size p.src + p.pending.length
+
 /-- an event of the surviving timeline: an output delivered to the consumer, or rows that were
 held by the chain at a checkpoint from which the pipeline was later restored (never delivered) -/
 inductive Ev (β ρ : Type) where
